@@ -2,6 +2,12 @@ use boa_sim::harness::{self, Tier, harness_error};
 
 fn main() {
     let args: Vec<String> = std::env::args().collect();
+    if args.len() >= 2 && args[1] == "list" {
+        for p in boa_sim::props() {
+            println!("{}", p.id);
+        }
+        return;
+    }
     if args.len() < 3 {
         harness_error("usage: boa_sim check|worker|exec|replay|gen <property> ...");
     }
@@ -9,6 +15,11 @@ fn main() {
         // debugging aid: evaluate a file, print trace, completion and VM depths
         let src = std::fs::read_to_string(&args[2]).expect("read");
         let (mut ctx, host) = boa_sim::js::new_default_context();
+        let mut rl = boa_engine::vm::RuntimeLimits::default();
+        if let Ok(v) = std::env::var("L") { rl.set_loop_iteration_limit(v.parse().unwrap()); }
+        if let Ok(v) = std::env::var("R") { rl.set_recursion_limit(v.parse().unwrap()); }
+        if let Ok(v) = std::env::var("S") { rl.set_stack_size_limit(v.parse().unwrap()); }
+        ctx.set_runtime_limits(rl);
         let r = ctx.eval(boa_engine::Source::from_bytes(src.as_str()));
         let c = boa_sim::js::completion(&r, &mut ctx);
         let j = ctx.run_jobs();
@@ -60,6 +71,10 @@ fn main() {
             0
         }
         "replay" => harness::replay(prop, &args[3]),
+        "audit" => {
+            let tier = Tier::parse(args.get(3).map_or("quick", String::as_str)).unwrap_or_else(|| harness_error("tier"));
+            harness::audit(prop, tier)
+        }
         "gen" => {
             let tier = Tier::parse(&args[3]).unwrap_or_else(|| harness_error("tier"));
             let seed: u64 = args[4].parse().unwrap_or_else(|_| harness_error("seed"));
